@@ -64,6 +64,7 @@ static void case_reset(void)
   sim_nfaults    = 0;
   memset(sim_callcount, 0, sizeof(sim_callcount));
   sim_callcount_all       = 0;
+  memset(sim_fd_shape, 0, sizeof(sim_fd_shape));
   sim_faults_fired        = 0;
   sim_rand_fault_permille = 0;
   sim_destroyed           = 0;
@@ -76,6 +77,7 @@ static void case_reset(void)
   app_cancel_in_cb_used = app_start_in_cb_used = 0;
   app_pending_write_flag                       = 0;
   app_process_count                            = 0;
+  app_total_cb                                 = 0;
   app_stuck                                    = 0;
   app_channel                                  = NULL;
   net_nq                                       = 0;
